@@ -366,8 +366,10 @@ func gsub(t *rt.Thread, c *rt.GoCont) (rt.Cont, error) {
 	}
 	var res rt.Value
 	switch {
-	case sb.Len() == 0:
-		// We return the input string to save an allocation.
+	case sb.Len() == 0 && sj == 0:
+		// Nothing was replaced: we return the input string to save an
+		// allocation.  (The builder is also empty when everything so far was
+		// replaced with the empty string, but then sj > 0.)
 		res = c.Arg(0)
 	case sj < len(s):
 		t.RequireBytes(len(s) - sj)
